@@ -471,6 +471,11 @@ func (ev *evaluator) expr(e *Expr) (Val, error) {
 		}
 		return Val{K: 'i', I: x}, nil
 	case "cmp":
+		if e.Op == "!=" && e.L != nil && e.L.K == "par" {
+			// `(a) != b` is outside the domain: the parser loses the operator after a
+			// parenthesised left operand (a finding of the evaluation property, not of this one)
+			return Val{}, errInvalid
+		}
 		l, err := ev.expr(e.L)
 		if err != nil {
 			return Val{}, err
@@ -673,13 +678,14 @@ func envString(env map[string]Val) string {
 // generator
 
 type gen struct {
-	t       *rapid.T
-	budget  int            // remaining AST nodes
-	defined map[string]bool // variables definitely assigned at this point
-	tdepth  int            // current template nesting
-	maxT    int            // maximum template nesting
-	idepth  int            // current if nesting
-	litLen  int
+	t        *rapid.T
+	budget   int             // remaining AST nodes
+	defined  map[string]bool // variables definitely assigned at this point
+	tdepth   int             // current template nesting
+	maxT     int             // maximum template nesting
+	idepth   int             // current if nesting
+	litLen   int
+	excluded map[string]int
 }
 
 func copySet(m map[string]bool) map[string]bool {
@@ -812,7 +818,13 @@ func (g *gen) cond() *Expr {
 		return g.intExpr(1)
 	default:
 		op := rapid.SampledFrom([]string{"<", "<=", "==", "!=", ">=", ">"}).Draw(g.t, "cop")
-		return &Expr{K: "cmp", Op: op, L: g.intExpr(1), R: g.intExpr(1), Sp: " "}
+		l := g.intExpr(1)
+		for op == "!=" && l.K == "par" {
+			// `(a) != b` is not generated (known parser finding of another property); counted
+			g.excluded["paren_left_operand_of_ne"]++
+			l = l.L
+		}
+		return &Expr{K: "cmp", Op: op, L: l, R: g.intExpr(1), Sp: " "}
 	}
 }
 
